@@ -290,8 +290,17 @@ def long_programs(rng, tier="quick"):
             prog.append(tok("lw", 10, 2, 0, 4 * ((k // 32) % 96)))
         else:
             prog.append(tok("addi", 5, 5, 0, 1 + k % 3))
-    yield prog, {2: DATA, 5: 0xFFFFFF00}
-    it = 260 if tier == "quick" else 900
+    # behind more than 1024 instructions (addresses >= 0x1000): every pc-relative and upper-immediate form
+    tail = [tok("auipc", 5, 0, 0, 1), tok("auipc", 6, 0, 0, -1), tok("lui", 7, 0, 0, 1), tok("jal", 1, 0, 0, 8, 4 * (n + 3) + 8), tok("addi", 10, 0, 0, 1),
+            tok("auipc", 10, 0, 0, 0x7FFFF), tok("beq", 0, 0, 0, 8), tok("addi", 10, 0, 0, 2), tok("jalr", 1, 1, 0, 24), tok("addi", 10, 0, 0, 3),
+            tok("auipc", 17, 0, 0, 3), tok("sw", 0, 2, 5, 0), tok("sw", 0, 2, 6, 4), tok("sw", 0, 2, 17, 8)]
+    yield prog + tail, {2: DATA, 5: 0xFFFFFF00}
+    # the SAME instruction objects executed several times: a loop over one instruction of every kind
+    body = [tok("auipc", 5, 0, 0, 1), tok("lui", 7, 0, 0, 0x12345), tok("add", 10, 10, 5), tok("sub", 10, 10, 7), tok("slli", 1, 10, 0, 3), tok("srai", 1, 1, 0, 2),
+            tok("xori", 1, 1, 0, -1), tok("sw", 0, 2, 1, 0), tok("lh", 17, 2, 0, 2), tok("lbu", 17, 2, 0, 1), tok("mul", 10, 10, 17), tok("divu", 17, 10, 6),
+            tok("slt", 17, 1, 10), tok("jal", 1, 0, 0, 8, 4 * 14 + 8), tok("addi", 10, 10, 0, 1), tok("addi", 6, 6, 0, -1), tok("bne", 0, 6, 0, -4 * 16)]
+    yield [tok("addi", 6, 0, 0, 4)] + body, {2: DATA, 10: 99}
+    it = 400 if tier == "quick" else 1200
     yield [tok("addi", 6, 0, 0, it), tok("lw", 5, 2, 0, 0), tok("addi", 5, 5, 0, 3), tok("sw", 0, 2, 5, 0), tok("lbu", 10, 2, 0, 1),
            tok("addi", 2, 2, 0, 4), tok("addi", 6, 6, 0, -1), tok("bne", 0, 6, 0, -24)], {2: DATA, 5: 0}
     yield [tok("addi", 6, 0, 0, it), tok("add", 5, 5, 6), tok("mul", 10, 5, 5), tok("srai", 10, 10, 0, 3), tok("xor", 5, 5, 10),
@@ -304,6 +313,18 @@ def long_case(prog, regs, mode, hazard=True, dspec="-", ispec="-", suite="sim-lo
     lines = header(mode, hazard, dspec, ispec, prog, regs, [])
     lines += ["sim.snap", "sim.run 1000", "sim.snap", "sim.run 20000", "sim.snap"]
     return Case(suite, lines, None, {"mode": mode, "hazard": hazard, "prog": prog, "regs": regs, "pokes": [], "d": dspec, "i": ispec, "long": True})
+
+
+def store_hit_programs():
+    """Every store width, as a HIT into a block a load made resident and as a MISS, at every lane of the word, read back at once,
+    then the block is displaced (loads of conflicting blocks) and the location read again. Deterministic; (program, registers)."""
+    for st, lanes in (("sb", (0, 1, 2, 3)), ("sh", (0, 2)), ("sw", (0,))):
+        for lane in lanes:
+            for resident in (True, False):
+                prog = ([tok("lw", 5, 2, 0, 0)] if resident else []) + [tok(st, 0, 2, 6, lane), tok("lw", 7, 2, 0, 0), tok("lbu", 10, 2, 0, lane)]
+                prog += [tok("lw", 1, 2, 0, 64 * k) for k in (1, 2, 3, 4, 5)]          # conflicting blocks in every small geometry
+                prog += [tok("lw", 17, 2, 0, 0), tok("lhu", 5, 2, 0, lane & 2)]
+                yield prog, {2: DATA, 6: 0xA1B2C3D4}
 
 
 def penalty_cache_spec(rng, kind):
